@@ -134,6 +134,8 @@ def op_get(rng, cfg, setup_code=None, main_code=None, cancel=None, size=None, re
     sizes_l = [rng.choice([1, 100, 1460, 8192, 20000]) for _ in range(rng.range(0, 3))]
     if size is None and sizes_l and min(sizes_l) < 1000:
         size = rng.choice([0, 1, 5, 100, 700])          # many tiny segments: keep the event count small
+    elif size is not None and size > 2000:
+        sizes_l = [x for x in sizes_l if x >= 1000]
     if cancel is not None and size is None:
         size = 8192 * max(0, cancel.count("0") - 1) + rng.choice([1, 100, 8192, 9000])
     spec, _ = payload(rng, size, ascii_ok=(cfg.type == "A"))
@@ -162,6 +164,8 @@ def op_put(rng, cfg, verb=None, setup_code=None, main_code=None, cancel=None, si
         chop = rng.choice(["-", "1", "2.3", "8192", "100.1.7000", "8191.1"])
     if size is None and chop in ("1", "2.3"):
         size = rng.choice([0, 1, 5, 100, 700])          # many tiny blocks: keep the event count small
+    elif size is not None and size > 2000 and chop in ("1", "2.3"):
+        chop = rng.choice(["-", "8192", "100.1.7000", "8191.1"])
     if cancel is not None and size is None:
         size = 8192 * max(0, cancel.count("0") - 1) + rng.choice([1, 100, 8192, 9000])
         chop = "-"
